@@ -228,12 +228,31 @@ func libSortSlice(x *Exec, n *ast.CallExpr, recv *Val, recvExpr ast.Expr, st *St
 		fmt.Sprintf("(forall ((j Int)) (! (=> (or (< j %s) (>= j (+ %s %s))) (= (select %s j) (select %s j))) :pattern ((select %s j))))", off, off, ln, newArr, oldArr, newArr))
 	// less(i,j) evaluated on the sorted array: the comparator body must be a single return of a boolean expression
 	// over s[i], s[j] (checked syntactically)
-	if len(lit.Body.List) != 1 {
-		panic(unsupported("comparator with more than one statement"))
+	var ret *ast.ReturnStmt
+	if len(lit.Body.List) == 1 {
+		ret, _ = lit.Body.List[0].(*ast.ReturnStmt)
 	}
-	ret, ok := lit.Body.List[0].(*ast.ReturnStmt)
-	if !ok || len(ret.Results) != 1 {
-		panic(unsupported("comparator is not a single return"))
+	if ret == nil || len(ret.Results) != 1 {
+		// comparator with statements (and possibly channel sends): only "the result is a permutation of the input" is
+		// assumed, no ordering facts; channels it may send on are advanced by an unknown number of items
+		c.trusted["sort with a multi-statement comparator: permutation of the input only (no ordering assumed)"] = true
+		all, handles := x.ghostHandlesIn(lit.Body, st, env)
+		for _, k := range sortedGhostKeys(st.gh) {
+			v := st.gh[k]
+			if i := strings.Index(k, ":"); i >= 0 && !all && !handles[k[i+1:]] {
+				continue
+			}
+			if strings.HasPrefix(k, "sent:") {
+				sq := *v.Seq
+				sq.Arr = c.freshConst(k, "(Array Int "+sq.ESort+")")
+				sq.N = c.freshConst(k+".n", "Int")
+				c.assume("true", app(">=", sq.N, v.Seq.N))
+				c.assumes = append(c.assumes, fmt.Sprintf("(forall ((j Int)) (! (=> (and (<= 0 j) (< j %s)) (= (select %s j) (select %s j))) :pattern ((select %s j))))", v.Seq.N, sq.Arr, v.Seq.Arr, sq.Arr))
+				st.gh[k] = Val{Seq: &sq, Ty: v.Ty}
+			}
+		}
+		x.lastPerm = [2]string{p, q}
+		return Val{}
 	}
 	pi := lit.Type.Params.List[0].Names
 	var iName, jName string
